@@ -1,5 +1,5 @@
 (** C18 — allocation discipline (bounded family: no allocator call after construction) *)
-From FB Require Import Base Syntax World Step AllocProofs.
+From FB Require Import Base Syntax World SlotMap Fub Unbounded Step AllocProofs UnboundedProofs GrowthProofs.
 
 (** FuturesUnorderedBounded, MergeBounded, buffered_unordered / try_buffered_unordered,
     for_each_concurrent, join_all / try_join_all: every operation after construction — push,
@@ -21,3 +21,41 @@ Theorem C18_no_allocation_in_any_history :
   Forall (fun n => n = 0) (run_allocs P s ops).
 Proof. exact no_alloc_history. Qed.
 Print Assumptions C18_no_allocation_in_any_history.
+
+(** the unbounded collections (FuturesUnordered, MergeUnbounded, the inner collection of
+    FuturesOrdered): a poll never calls the allocator, keeps the geometric shape of the group
+    capacities and keeps the last (largest) group *)
+Theorem C18_poll_never_allocates :
+  forall (P : params), 1 <= pGrowth P -> forall (mrg : bool) (n : nat) (u : fu) (t : nat) (w : world),
+  geo (pGrowth P) (groups u) ->
+  let '(u', sp, w') := fu_loop P mrg n u t w in
+  geo (pGrowth P) (groups u') /\ last_cap (groups u') = last_cap (groups u) /\ nalloc w' = nalloc w.
+Proof. exact fu_loop_growth. Qed.
+Print Assumptions C18_poll_never_allocates.
+
+(** a push calls the allocator at most 3 times, and only to create a group - which it does only
+    when there is none or the last one is full (so held >= its capacity); the new group is
+    [growth] times as large; the capacity of the last group never decreases *)
+Theorem C18_push_allocates_only_for_a_new_group :
+  forall (P : params), 1 <= pGrowth P -> forall (mrg : bool) (u : fu) (c : child) (w : world),
+  1 <= pMinCap P -> fu_ok mrg u -> geo (pGrowth P) (groups u) ->
+  let '(u', w') := fu_push P mrg u c w in
+  geo (pGrowth P) (groups u')
+  /\ nalloc w' <= nalloc w + 3
+  /\ last_cap (groups u) <= last_cap (groups u')
+  /\ (nalloc w' <> nalloc w ->
+      groups u = [] \/ exists l, last_opt (groups u) = Some l /\ fub_len l = fub_cap l
+                                 /\ last_cap (groups u') = fub_cap l * pGrowth P).
+Proof. exact fu_push_growth. Qed.
+Print Assumptions C18_push_allocates_only_for_a_new_group.
+
+(** hence the number of groups alive is logarithmic: growth^(groups - 1) * cap_first <= cap_last,
+    and (last capacity monotone, multiplied by growth at each creation, a creation needs
+    held >= cap_last) the number of allocating events over any history is at most
+    log_growth(growth * peak / cap_first) + 1 *)
+Theorem C18_groups_logarithmic :
+  forall (P : params), 1 <= pGrowth P -> forall (a : fub) (t : list fub),
+  geo (pGrowth P) (a :: t) -> 1 <= fub_cap a ->
+  pGrowth P ^ length t * fub_cap a <= last_cap (a :: t).
+Proof. exact groups_logarithmic. Qed.
+Print Assumptions C18_groups_logarithmic.
